@@ -42,6 +42,13 @@ def run(prog, run):
         raise AnalysisBroken('C15: only %d state-changing atoms found in handleDatagram' % len(atoms))
     decode_calls = [i for i, n in hd.calls('QXmppStunMessage::decode')]
     if not decode_calls:
+        # the decode may sit in a same-file helper (its boolean result is then evaluated through the helper: the verdict must be the decoder's)
+        for i, n in hd.calls():
+            if not n.get('op'):
+                for g in prog.callee_fns(hd, n):
+                    if g.file == hd.file and g.entry is not None and any(True for _ in g.calls('QXmppStunMessage::decode')):
+                        decode_calls.append(i)
+    if not decode_calls:
         raise AnalysisBroken('C15: handleDatagram no longer decodes the datagram')
 
     def mk(decode_ok, no_transaction, password_empty):
@@ -203,6 +210,7 @@ def run(prog, run):
 
     r6_nomination(prog, run, hd, mk)
     r7_shared(prog, run)
+    r8_fresh(prog, run, hd)
 
 
 def r6_nomination(prog, run, hd, mk):
@@ -298,3 +306,46 @@ def r7_shared(prog, run):
         run.ok(rid, rr.loc(emits[0]), 'each datagram is delivered with its own length')
     else:
         run.violation(rid, 'QXmppUdpTransport::readyRead#datagram-length', rr.loc(emits[0]), why)
+
+
+def r8_fresh(prog, run, hd):
+    rid = run.rule('C15.R8', 'every datagram is decoded into a fresh message object: decode() stores attributes as it parses (before it validates them) and never clears what an '
+                             'earlier call stored, so a long-lived target keeps attributes of a packet that was refused - USE-CANDIDATE, ICE-CONTROLLING or an address of an '
+                             'unauthenticated packet would then count for the next authenticated one', floor=1)
+    sites = []          # (fn, call node, target expression in that fn)
+    for i, n in hd.calls('QXmppStunMessage::decode'):
+        sites.append((hd, i, n.get('obj')))
+    for i, n in hd.calls():
+        if n.get('op'):
+            continue
+        for g in prog.callee_fns(hd, n):
+            if g.file != hd.file or g.entry is None:
+                continue
+            for j, m in g.calls('QXmppStunMessage::decode'):
+                o = g.nodes[g.skip(m['obj'])] if m.get('obj') is not None else {}
+                if o.get('k') == 'var' and o.get('vk') == 'param' and o.get('pidx') is not None and o['pidx'] < len(n.get('args', [])):
+                    sites.append((hd, i, n['args'][o['pidx']]))       # the helper decodes into what the handler hands it
+                else:
+                    sites.append((g, j, m.get('obj')))
+    if not sites:
+        raise AnalysisBroken('C15.R8: no decode() target found for handleDatagram')
+    for f, i, tgt in sites:
+        run.instance(rid)
+        t = f.nodes[f.skip(tgt)] if tgt is not None else {}
+        ok = False
+        why = f.fmt(tgt)[:60] if tgt is not None else '?'
+        if t.get('k') == 'var' and t.get('vk') == 'local':
+            d = f.defs().get(t['decl']) or {}
+            init = f.nodes[f.skip(d['init'])] if d.get('init') is not None else None
+            if d.get('ref'):
+                # a reference: fresh only if it is bound to a fresh local (not to a member or anything reachable from this)
+                ok = init is not None and init['k'] == 'var' and init.get('vk') == 'local' and not (f.defs().get(init['decl']) or {}).get('ref')
+                why = 'a reference to %s' % (f.fmt(d['init'])[:50] if d.get('init') is not None else '?')
+            else:
+                ok = 'static' not in (d.get('storage') or '') and not d.get('static')
+        if ok:
+            run.ok(rid, f.loc(i), 'decode() fills a message object local to the handling of this datagram')
+        else:
+            run.violation(rid, 'handleDatagram#decode-target-long-lived', f.loc(i),
+                          'the datagram is decoded into %s, which outlives the handling of one datagram: attributes stored by decode() for a packet that was then refused '
+                          '(no or wrong MESSAGE-INTEGRITY) are still set when the next, authenticated packet is processed' % why)
